@@ -18,6 +18,10 @@ RULE = {
 }
 
 
+def lcg_menu(ns, ratios, seeds):
+    return ",".join("lcg:%d:%d:%d" % (n, int(n * r), s) for n in ns for r in ratios for s in range(seeds))
+
+
 def runs(prop, tier):
     ks_q = "1,2,3" if prop != "C06" else "0,1,2,3"
     ks_t = "1,2,3,4,n+1,1000" if prop != "C06" else "0,1,2,3,4,n+1,1000"
@@ -25,6 +29,10 @@ def runs(prop, tier):
          ("G(5) x A2, k in {%s}" % ks_q, [["--n", 5, "--alpha", "A2", "--ks", ks_q]]),
          ("blob grammar K=3,T=2 x patterns U, M3, k in {%s}" % ks_q, [["--grammar", "blobs:3:2", "--alpha", a, "--ks", ks_q] for a in ("U", "M3")]),
          ("dense families x U", [["--families", "K:6,K:7,wheel:6,prism:4,petersen,Kb:3:4,grid:3:4,cube:3", "--alpha", "U", "--ks", ks_q]]),
+         ("G(5) x {1,100} (extreme weight ratio)", [["--n", 5, "--alpha", "H2", "--ks", ks_q]]),
+         ("fixed menu: 1200 pseudo-random sparse graphs n=8..20 x 3 pseudo-random weightings in 1..9, and x every one-heavy-edge weighting for n <= 12",
+          [["--families", lcg_menu((8, 10, 12, 14, 16, 20), (1.3, 1.6, 2.0), 66), "--alpha", "R9x3", "--ks", ks_q],
+           ["--families", lcg_menu((7, 8, 9, 10, 11, 12), (1.3, 1.6, 2.0), 40), "--alpha", "OH", "--ks", ks_q]]),
          ("large families (up to 169 vertices; dynamic-bitset validator, Horton reference) x patterns U, M3",
           [["--families", "wheel:80,grid:9:9,cube:6,K:13,brick:8:9,subgrid:6:6,torus:6:6,Kb:8:8,grid:13:13", "--alpha", a, "--ks", ks_t] for a in ("U", "M3")])]
     if tier == "quick":
